@@ -28,7 +28,9 @@ def named(table, axis):
     counts = {}
     for idx, lab in labels.items():
         counts.setdefault(lab, []).append(int(idx))
-    return {lab: idxs[0] for lab, idxs in counts.items() if lab not in ("", None) and len(idxs) == 1}
+    # a label that also heads a line of the other axis of the same table has two readings: it names nothing
+    other = set((table["col_labels"] if axis == "row" else table["row_labels"]).values())
+    return {lab: idxs[0] for lab, idxs in counts.items() if lab not in ("", None) and len(idxs) == 1 and lab not in other}
 
 
 def split_scopes(text):
